@@ -464,7 +464,13 @@ def _rvalid_axioms(ct) -> List[Any]:
         z3.ForAll([Sx, v], z3.Implies(z3.And(rvalid(Sx, v), M.is_Ref(Sx), M.rcls(Sx) == ct.id("ListSchema")), z3.And(
             M.isinstance_f(ct, v, "list"),
             z3.Implies(ln != M.NilV, n == M.int_of(ln)), z3.Implies(mn != M.NilV, n >= M.int_of(mn)),
-            z3.Implies(mx != M.NilV, n <= M.int_of(mx)))), patterns=[rvalid(Sx, v)]),
+            z3.Implies(mx != M.NilV, n <= M.int_of(mx)),
+            # exact element list (no `...`, no type): as many values as element schemas
+            z3.Implies(z3.And(S.prop(Sx, "type") == M.NilV, S.prop(Sx, "elements") != M.NilV,
+                              z3.Or(M.llen(S.prop(Sx, "elements")) == 0,
+                                    z3.And(M.lat(S.prop(Sx, "elements"), 0) != M.EllV,
+                                           M.lat(S.prop(Sx, "elements"), M.llen(S.prop(Sx, "elements")) - 1) != M.EllV))),
+                       n == M.llen(S.prop(Sx, "elements"))))), patterns=[rvalid(Sx, v)]),
         z3.ForAll([Sx, v], z3.Implies(z3.And(rvalid(Sx, v), M.is_Ref(Sx), M.rcls(Sx) == ct.id("DictSchema")),
                                       M.isinstance_f(ct, v, "dict")), patterns=[rvalid(Sx, v)]),
     ]
